@@ -142,10 +142,14 @@ fn pack_info_r(l: usize, kb: u8) {
     b[34] = kb;
     fill_any(&mut b[35..38]);
     b[38] = l as u8;
-    if l == 2 {
+    if l == 2 && kb == b'm' {
         // any two bytes: valid UTF-8 (two ASCII or one two-byte sequence) or not
         b[39] = kani::any();
         b[40] = kani::any();
+    } else if l == 2 {
+        // a concrete two-byte character ("é"): one character, two bytes
+        b[39] = 0xC3;
+        b[40] = 0xA9;
     } else {
         let mut i = 0;
         while i < l { b[39 + i] = b'a' + (i as u8 % 26); i += 1; }
@@ -195,3 +199,4 @@ pack_info_r_inst!(c12_pack_info_r_l0, 0, b'c', kani::stub(std::str::from_utf8, c
 pack_info_r_inst!(c12_pack_info_r_l1, 1, b'd', kani::stub(std::str::from_utf8, crate::verif_common::stub_from_utf8));
 pack_info_r_inst!(c12_pack_info_r_l2_utf8, 2, b'm', );
 pack_info_r_inst!(c12_pack_info_r_l9, 9, b'C', kani::stub(std::str::from_utf8, crate::verif_common::stub_from_utf8));
+pack_info_r_inst!(c12_pack_info_r_l2_accent, 2, b'd', );
